@@ -223,6 +223,76 @@ fn write_synthetic_chain(p: &Puppet, base: u64, names: &[&str]) {
     p.write(base, &img);
 }
 
+/// The parts of the property that can be judged for ANY quiescent target from its pid alone: raw
+/// streams are byte copies of the /proc files, the memory-info list mirrors the memory map line by
+/// line, the handle stream mirrors the open descriptors.
+pub fn proc_mirror(pid: i32, bytes: &[u8]) -> Vec<(String, String)> {
+    let mut fails: Vec<(String, String)> = Vec::new();
+    let d = Dump::parse(bytes);
+    let bytes = bytes.to_vec();
+    // a. raw copies
+    for (ty, file) in [(ST_LINUX_CMD_LINE, "cmdline"), (ST_LINUX_ENVIRON, "environ"), (ST_LINUX_AUXV, "auxv"), (ST_MOZ_LINUX_LIMITS, "limits"), (ST_LINUX_MAPS, "maps")] {
+        let want = std::fs::read(format!("/proc/{pid}/{file}")).unwrap_or_default();
+        match d.raw_bytes(&bytes, ty) {
+            Some(got) if got == &want[..] => {}
+            Some(got) => fails.push((format!("raw-stream-differs/{file}"), format!("the {file} stream ({} bytes) is not a byte copy of /proc/<pid>/{file} ({} bytes)", got.len(), want.len()))),
+            None => fails.push((format!("raw-stream-missing/{file}"), format!("no {file} stream"))),
+        }
+    }
+    // b. memory info list
+    let lines = parse_maps(&std::fs::read(format!("/proc/{pid}/maps")).unwrap_or_default()).unwrap_or_default();
+    if d.meminfo.len() != lines.len() {
+        fails.push(("meminfo-count".into(), format!("{} memory-info entries for {} memory-map lines", d.meminfo.len(), lines.len())));
+    } else {
+        for (m, l) in d.meminfo.iter().zip(lines.iter()) {
+            if m.base != l.start || m.region_size != l.end - l.start {
+                fails.push(("meminfo-range".into(), format!("entry [{:#x}, +{:#x}) vs line [{:#x}, {:#x})", m.base, m.region_size, l.start, l.end)));
+                break;
+            }
+            if !protection(&l.perms).contains(&m.prot) {
+                fails.push(("meminfo-protection".into(), format!("line {} has protection {:#x}", l.text(), m.prot)));
+                break;
+            }
+            let want_ty = if l.private() { 0x20000 } else { 0x40000 };
+            if m.ty != want_ty {
+                fails.push(("meminfo-type".into(), format!("line {} has type {:#x}", l.text(), m.ty)));
+                break;
+            }
+        }
+    }
+    // c. handles
+    let mut fdlist: Vec<(u64, String, u32)> = Vec::new();
+    if let Ok(rd) = std::fs::read_dir(format!("/proc/{pid}/fd")) {
+        for e in rd.flatten() {
+            let Ok(n) = e.file_name().to_string_lossy().parse::<u64>() else { continue };
+            let target = std::fs::read_link(e.path()).map(|t| t.to_string_lossy().into_owned()).unwrap_or_default();
+            let mode = unsafe {
+                let mut st: libc::stat = std::mem::zeroed();
+                let cp = std::ffi::CString::new(e.path().to_string_lossy().as_bytes()).unwrap();
+                if libc::stat(cp.as_ptr(), &mut st) == 0 { st.st_mode } else { 0 }
+            };
+            fdlist.push((n, target, mode));
+        }
+    }
+    if d.handles.len() != fdlist.len() {
+        fails.push(("handle-count".into(), format!("{} handle descriptors for {} open descriptors", d.handles.len(), fdlist.len())));
+    }
+    for (n, target, mode) in &fdlist {
+        match d.handles.iter().find(|h| h.handle == *n) {
+            None => fails.push(("handle-missing".into(), format!("descriptor {n} -> {target} has no handle entry"))),
+            Some(h) => {
+                if h.object_name.as_deref() != Some(target.as_str()) {
+                    fails.push(("handle-target".into(), format!("descriptor {n}: recorded {:?}, link target is {target:?}", h.object_name)));
+                }
+                if h.attributes != *mode {
+                    fails.push(("handle-mode".into(), format!("descriptor {n}: recorded mode {:#o}, file mode is {mode:#o}", h.attributes)));
+                }
+            }
+        }
+    }
+    fails
+}
+
 pub fn run_case(c: &Case) -> Vec<(String, String)> {
     let mut fails = Vec::new();
     let env = env_set(c.env);
@@ -325,15 +395,7 @@ pub fn run_case(c: &Case) -> Vec<(String, String)> {
     p.quiesce();
     let d = Dump::parse(&bytes);
     let pid = p.pid;
-    // a. raw copies
-    for (ty, file) in [(ST_LINUX_CMD_LINE, "cmdline"), (ST_LINUX_ENVIRON, "environ"), (ST_LINUX_AUXV, "auxv"), (ST_MOZ_LINUX_LIMITS, "limits"), (ST_LINUX_MAPS, "maps")] {
-        let want = std::fs::read(format!("/proc/{pid}/{file}")).unwrap_or_default();
-        match d.raw_bytes(&bytes, ty) {
-            Some(got) if got == &want[..] => {}
-            Some(got) => fails.push((format!("raw-stream-differs/{file}"), format!("the {file} stream ({} bytes) is not a byte copy of /proc/<pid>/{file} ({} bytes)", got.len(), want.len()))),
-            None => fails.push((format!("raw-stream-missing/{file}"), format!("no {file} stream"))),
-        }
-    }
+    fails.extend(proc_mirror(pid, &bytes));
     match (d.raw_bytes(&bytes, ST_LINUX_LSB_RELEASE), &expected_release) {
         (Some(got), Some(want)) if got == &want[..] => {}
         (None, None) => {}
@@ -342,57 +404,6 @@ pub fn run_case(c: &Case) -> Vec<(String, String)> {
     if c.cpu > 0 {
         if d.raw_bytes(&bytes, ST_LINUX_CPU_INFO) != Some(fixtures[c.cpu - 1].text.as_bytes()) {
             fails.push(("raw-stream-differs/cpuinfo".into(), "the cpuinfo stream is not a byte copy of /proc/cpuinfo".into()));
-        }
-    }
-    // b. memory info list
-    let lines = parse_maps(&std::fs::read(format!("/proc/{pid}/maps")).unwrap_or_default()).unwrap_or_default();
-    if d.meminfo.len() != lines.len() {
-        fails.push(("meminfo-count".into(), format!("{} memory-info entries for {} memory-map lines", d.meminfo.len(), lines.len())));
-    } else {
-        for (m, l) in d.meminfo.iter().zip(lines.iter()) {
-            if m.base != l.start || m.region_size != l.end - l.start {
-                fails.push(("meminfo-range".into(), format!("entry [{:#x}, +{:#x}) vs line [{:#x}, {:#x})", m.base, m.region_size, l.start, l.end)));
-                break;
-            }
-            if !protection(&l.perms).contains(&m.prot) {
-                fails.push(("meminfo-protection".into(), format!("line {} has protection {:#x}", l.text(), m.prot)));
-                break;
-            }
-            let want_ty = if l.private() { 0x20000 } else { 0x40000 };
-            if m.ty != want_ty {
-                fails.push(("meminfo-type".into(), format!("line {} has type {:#x}", l.text(), m.ty)));
-                break;
-            }
-        }
-    }
-    // c. handles
-    let mut fdlist: Vec<(u64, String, u32)> = Vec::new();
-    if let Ok(rd) = std::fs::read_dir(format!("/proc/{pid}/fd")) {
-        for e in rd.flatten() {
-            let Ok(n) = e.file_name().to_string_lossy().parse::<u64>() else { continue };
-            let target = std::fs::read_link(e.path()).map(|t| t.to_string_lossy().into_owned()).unwrap_or_default();
-            let mode = unsafe {
-                let mut st: libc::stat = std::mem::zeroed();
-                let cp = std::ffi::CString::new(e.path().to_string_lossy().as_bytes()).unwrap();
-                if libc::stat(cp.as_ptr(), &mut st) == 0 { st.st_mode } else { 0 }
-            };
-            fdlist.push((n, target, mode));
-        }
-    }
-    if d.handles.len() != fdlist.len() {
-        fails.push(("handle-count".into(), format!("{} handle descriptors for {} open descriptors", d.handles.len(), fdlist.len())));
-    }
-    for (n, target, mode) in &fdlist {
-        match d.handles.iter().find(|h| h.handle == *n) {
-            None => fails.push(("handle-missing".into(), format!("descriptor {n} -> {target} has no handle entry"))),
-            Some(h) => {
-                if h.object_name.as_deref() != Some(target.as_str()) {
-                    fails.push(("handle-target".into(), format!("descriptor {n}: recorded {:?}, link target is {target:?}", h.object_name)));
-                }
-                if h.attributes != *mode {
-                    fails.push(("handle-mode".into(), format!("descriptor {n}: recorded mode {:#o}, file mode is {mode:#o}", h.attributes)));
-                }
-            }
         }
     }
     // d. system info
